@@ -26,8 +26,11 @@ type c12Step struct {
 type c12Case struct {
 	Specs []*CfgSpec `json:"specs"` // middlewares alive: 0 and 1 share one Config value, 2 has Specs[1]
 	Debug bool       `json:"debug"`
-	Steps []c12Step  `json:"steps"`
+	Steps []c12Step  `json:"steps"` // the whole history (a replay runs all of it, probing after every step)
 	Seed  uint64     `json:"poison_seed"`
+	// FailedAfter is the number of steps after which the mismatch was first seen (0 = before any step of this
+	// world: another world running in parallel poisoned process-wide state)
+	FailedAfter int `json:"failed_after"`
 }
 
 func poisonStrings(s []string, tag string) {
@@ -221,9 +224,9 @@ func (w *c12World) probe(r *Run, l *Local, cs c12Case, upto int, full bool, rng 
 			l.evals++
 			if !got.Equal(w.goldens[i][k]) {
 				c := cs
-				c.Steps = cs.Steps[:upto]
+				c.FailedAfter = upto
 				r.Violate("golden-mismatch", "golden", fmt.Sprintf("after steps %v (debug=%v), middleware %d answers %s with %s; a fresh middleware of the same configuration answers %s",
-					stepNames(c.Steps), cs.Debug, i, reqString(suite[k]), got, w.goldens[i][k]), c)
+					stepNames(cs.Steps[:upto]), cs.Debug, i, reqString(suite[k]), got, w.goldens[i][k]), c)
 				return false
 			}
 		}
